@@ -248,6 +248,8 @@ bool_t tmDateIsValid(size_t y, size_t m, size_t d)
 bool_t tmDateIsValid2(const octet date[6])
 {
 	return memIsValid(date, 6) && 
+		date[0] < 10 && date[1] < 10 && date[2] < 10 &&
+		date[3] < 10 && date[4] < 10 && date[5] < 10 &&
 		tmDateIsValid(
 			(size_t)10 * date[0] + date[1] + 2000,
 			(size_t)10 * date[2] + date[3],
